@@ -725,7 +725,9 @@ func c19Token(c *Check) {
 	noVerify := p.allCallSites(func(o *types.Func) bool {
 		return strings.Contains(pkgPathOf(o), "cristalhq/jwt") && o.Name() == "ParseNoVerify"
 	})
-	live := p.allCallSites(func(o *types.Func) bool { return strings.Contains(pkgPathOf(o), "cristalhq/jwt") && o.Name() == "Parse" })
+	live := p.allCallSites(func(o *types.Func) bool {
+		return strings.Contains(pkgPathOf(o), "cristalhq/jwt") && o.Name() == "Parse"
+	})
 	c.Floor("R19.3b", "jwt.Parse call sites (matcher liveness)", len(live), 1)
 	for _, s := range noVerify {
 		c.Ob("R19.3b", "ParseNoVerify@"+fnName(s.Parent()), false, p.Pos(s.Pos()), "token parsed without signature verification")
